@@ -220,6 +220,8 @@ class Ctx:
         self.unknown_branches = 0
         self.notes = []
         self.rules = {}         # aux variable id -> Poly r: the path condition contains  var^2 == r  (used by reduce_b)
+        self.defidx = {}        # index into pc -> group id, for atoms that only DEFINE auxiliary variables (see relevant_pc)
+        self.defgroups = []     # group id -> set of auxiliary variable ids defined by the group
 
     # -- constraints
     def add(self, b, note=None):
@@ -243,6 +245,62 @@ class Ctx:
         # keep the path satisfiable
         if self.model is None and self._check() == "unsat":
             raise Abort("assumption makes path infeasible: %s" % what)
+
+    def add_def(self, auxvars, atoms):
+        """add atoms that define the auxiliary variables auxvars (total definitions: for every value of the other variables
+        satisfying the separately recorded definedness assumption there are values of auxvars satisfying them)"""
+        gid = len(self.defgroups)
+        self.defgroups.append(set(_single_var(v.n) for v in auxvars))
+        for b in atoms:
+            n0 = len(self.pc)
+            self.add(b)
+            if len(self.pc) > n0:
+                self.defidx[n0] = gid
+
+    def relevant_pc(self, goal):
+        """path condition without the definitions of auxiliary variables that neither the goal nor any branch condition /
+        assumption (transitively) mentions - an exact slicing, since those definitions are total"""
+        if not self.defidx:
+            return self.pc
+        needed = set(goal.vars())
+        for i, b in enumerate(self.pc):
+            if i not in self.defidx:
+                needed |= b.vars()
+        inc = set()
+        changed = True
+        while changed:
+            changed = False
+            for gid, vs in enumerate(self.defgroups):
+                if gid not in inc and vs & needed:
+                    inc.add(gid)
+                    for i, g in self.defidx.items():
+                        if g == gid:
+                            needed |= self.pc[i].vars()
+                    changed = True
+        return [b for i, b in enumerate(self.pc) if i not in self.defidx or self.defidx[i] in inc]
+
+    def cone_pc(self, goal):
+        """goal-directed slice: atoms without auxiliary variables, plus the atoms connected to the goal through shared auxiliary
+        variables.  Only a subset of the path condition, so 'unsat' with it is sound; any other verdict must be re-decided with
+        relevant_pc (the runner does)."""
+        aux = set()
+        for vs in self.defgroups:
+            aux |= vs
+        if not aux:
+            return self.pc
+        need = set(goal.vars()) & aux
+        atoms = [(b, b.vars() & aux) for b in self.pc]
+        changed = True
+        keep = [not av for _, av in atoms]
+        while changed:
+            changed = False
+            for i, (b, av) in enumerate(atoms):
+                if not keep[i] and av & need:
+                    keep[i] = True
+                    if not av <= need:
+                        need |= av
+                    changed = True
+        return [b for (b, _), k in zip(atoms, keep) if k]
 
     def fresh(self, tag, desc=""):
         self.naux += 1
@@ -343,9 +401,8 @@ class Ctx:
             if nonneg.k != "c" or not nonneg.a:
                 self.assume(nonneg, "sqrt argument >= 0")
             s = self.fresh("s", "sqrt(%s)" % (repr(r)[:80]))
-            self.add(B.cmp("<=", -s.n))
-            # s^2 * dpoly == n
-            self.add(B.cmp("==", s.n * s.n * r.dpoly() - r.n))
+            # s >= 0, s^2 * dpoly == n
+            self.add_def([s], [B.cmp("<=", -s.n), B.cmp("==", s.n * s.n * r.dpoly() - r.n)])
             if not r.d:
                 self.rules[_single_var(s.n)] = r.n
             self._memo[key] = s
@@ -371,8 +428,8 @@ class Ctx:
             mp = A.Poly({mono: Fraction(1)})
             c = self.fresh("cosb", "cos(%r/%d)" % (mp, self.TRIG_DENOM))
             s = self.fresh("sinb", "sin(%r/%d)" % (mp, self.TRIG_DENOM))
-            self.add(B.cmp("==", c.n * c.n + s.n * s.n - P1))
-            self.add(B.implies(B.cmp("==", mp), B.and_(B.cmp("==", c.n - P1), B.cmp("==", s.n))))
+            self.add_def([c, s], [B.cmp("==", c.n * c.n + s.n * s.n - P1),
+                                  B.implies(B.cmp("==", mp), B.and_(B.cmp("==", c.n - P1), B.cmp("==", s.n)))])
             self.rules[_single_var(c.n)] = P1 - s.n * s.n
             v = self._memo[key] = (c, s)
         return v
@@ -423,13 +480,14 @@ class Ctx:
                 else:
                     c = self.fresh("cos", "cos(%s)" % (repr(r)[:60]))
                     s = self.fresh("sin", "sin(%s)" % (repr(r)[:60]))
-                    self.add(B.cmp("==", c.n * c.n + s.n * s.n - P1))
                     self.rules[_single_var(c.n)] = P1 - s.n * s.n
-                    # r == 0 -> c == 1, s == 0
-                    self.add(B.implies(B.cmp("==", r.n), B.and_(B.cmp("==", c.n - P1), B.cmp("==", s.n))))
+                    # c^2 + s^2 = 1;  r == 0 -> c == 1, s == 0;  optionally sin^2 <= r^2
+                    defs = [B.cmp("==", c.n * c.n + s.n * s.n - P1),
+                            B.implies(B.cmp("==", r.n), B.and_(B.cmp("==", c.n - P1), B.cmp("==", s.n)))]
                     if self.TRIG_SIN_BOUND:
                         dp = r.dpoly()
-                        self.add(B.cmp("<=", s.n * s.n * dp * dp - r.n * r.n))
+                        defs.append(B.cmp("<=", s.n * s.n * dp * dp - r.n * r.n))
+                    self.add_def([c, s], defs)
                     v = (c, s)
             self._memo[key] = v
         return v
